@@ -51,6 +51,10 @@ structure Calibs where
   default : Option Calibrator
   contexts : List ContextCalibrator
 
+/-- `FloatDataEncoding.__init__`: the two accepted alias spellings are replaced by the XTCE names (with a warning). -/
+def normFloatEncoding (s : String) : String :=
+  if s == "IEEE-754" then "IEEE754" else if s == "MIL-1750A" then "MILSTD_1750A" else s
+
 structure NumEnc where
   isFloat : Bool
   size : Int
